@@ -849,6 +849,15 @@ class API:
                 cannot be automatically populated.
         """
 
+        # The settings describe the whole API, while a sub-package view only
+        # holds the services and messages of its own sub-package: look the
+        # selectors up in the top-level view.
+        whole_api = (
+            dataclasses.replace(self, subpackage_view=())
+            if self.subpackage_view
+            else self
+        )
+
         all_errors: dict = {}
         selectors_seen: set = set()
         for method_settings in service_method_settings:
@@ -858,7 +867,7 @@ class API:
                 continue
             selectors_seen.add(method_settings.selector)
 
-            method_descriptor = self.all_methods.get(method_settings.selector)
+            method_descriptor = whole_api.all_methods.get(method_settings.selector)
             # Check if this selector can be mapped to a method in the API.
             if not method_descriptor:
                 all_errors[method_settings.selector] = ["Method was not found."]
@@ -874,7 +883,7 @@ class API:
                         "Method is not a unary method."
                     ]
                     continue
-                top_level_request_message = self.messages[
+                top_level_request_message = whole_api.messages[
                     method_descriptor.input_type.lstrip(".")
                 ]
                 selector_errors = []
